@@ -73,6 +73,15 @@ def check_query(F, rep, q, kind):
         f = dict(zip([fd["name"] for fd in adt["variants"][0]["fields"]], n[3]))
         if kind == "need":
             strs = F_(("payload", F_(me, "verneeds"), "Some"), 1)
+            nested = need_record_nested(F, an, val, f, strs, idx, me)
+            if nested is not None:
+                msgs += nested
+                if f.get("hidden") != hidden:
+                    msgs.append("hidden is %s, expected bit 15 of versym[sym_idx]" % show(f.get("hidden"))[:160])
+                if ("var", getv, "Ok") not in st.facts and not any(fa[0] == "var" and fa[2] == "Ok" and norm(fa[1]) == v[1] for fa in st.facts):
+                    msgs.append("a record is returned without version_ids.get(sym_idx) having succeeded")
+                rep.require(not msgs, "query", q + ":record", w, "fields, pairing and index guard as specified (nested search form)", "%s: %s" % (q, "; ".join(msgs)))
+                continue
             # name / hash / flags come from one aux record
             vna = None
             nm_ = f.get("name")
@@ -147,6 +156,103 @@ def check_query(F, rep, q, kind):
         if ("var", getv, "Ok") not in st.facts and not any(fa[0] == "var" and fa[2] == "Ok" and norm(fa[1]) == v[1] for fa in st.facts):
             msgs.append("a record is returned without version_ids.get(sym_idx) having succeeded")
         rep.require(not msgs, "query", q + ":record", w, "fields, pairing and index guard as specified", "%s: %s" % (q, "; ".join(msgs)))
+
+
+def _apply_closure(F, an, clo, args):
+    """the value of a closure applied to symbolic arguments, its captures replaced by what they held; None if not expressible"""
+    if not (clo.op == "agg" and clo.args[0] == "closure" and isinstance(clo.args[1], str)):
+        return None
+    cf = F.fn(clo.args[1])
+    if cf is None:
+        return None
+    rt = analyze_fn(F, cf).ret_term()
+    if rt is None or rt.op == "phi":
+        rt = program(F).closed_tree(cf)
+    if rt is None:
+        return None
+    env_ty = nm(cf["body"]["locals"][1]["ty"]) if len(cf["body"]["locals"]) > 1 else ""
+    env = T.refval(clo) if env_ty.startswith("&") else clo
+    try:
+        return program(F).subst(an, State({}, frozenset()), rt, [env] + list(args))
+    except KeyError:
+        return None
+
+
+def need_record_nested(F, an, val, f, strs, idx, me):
+    """get_requirement written as one nested search:
+         verneeds.find_map(|(vn, mut aux)| aux.find(|a| P(a)).map(|a| (g(vn), a)))           or
+         verneeds.flat_map(|(vn, aux)| aux.map(move |a| (g(vn), a))).find(|(_, a)| P(a))
+    Both yield the pair (g(vn), a) for the first outer item, in section order, whose aux iterator holds an `a` with P(a), and the first
+    such `a` - what the two nested loops with an early return compute.  Returns None when the record is not built that way, else the
+    list of deviations from: P(a) is a.vna_other == versym & 0x7fff; file = strs[vn.vn_file]; name / hash / flags from that same a."""
+    ITEM, INNER = Term("ITEM"), Term("INNER")
+    found = None
+    for x in val.subterms():
+        if x.op != "call" or len(x.args[2]) != 2:
+            continue
+        if x.args[0] == "iter::find_map":
+            body = _apply_closure(F, an, x.args[2][1], [ITEM])
+            if body is None or body.op != "mterm":
+                continue
+            S = body.args[0]
+            arms = dict(body.args[1])
+            if not (S.op == "call" and S.args[0] == "iter::find" and set(arms) == {"Some", "None"} and arms["None"].op == "agg" and arms["None"].args[3] == "None"):
+                continue
+            sm = arms["Some"]
+            if not (sm.op == "agg" and sm.args[3] == "Some" and sm.args[4][0].op == "agg" and sm.args[4][0].args[0] == "tuple" and len(sm.args[4][0].args[4]) == 2):
+                continue
+            p0, p1 = sm.args[4][0].args[4]
+            if p1 is not T.payload(S, "Some"):
+                continue
+            pred = _apply_closure(F, an, S.args[2][1], [T.refval(INNER)])
+            found = (x, norm(x.args[2][0]), norm(S.args[2][0]), norm(p0), norm(pred) if pred is not None else None)
+        elif x.args[0] == "iter::find" and x.args[2][0].op == "call" and x.args[2][0].args[0].endswith("Iterator::flat_map") and len(x.args[2][0].args[2]) == 2:
+            fm = x.args[2][0]
+            body = _apply_closure(F, an, fm.args[2][1], [ITEM])
+            if body is None or not (body.op == "call" and body.args[0].endswith("Iterator::map") and len(body.args[2]) == 2):
+                continue
+            pair = _apply_closure(F, an, body.args[2][1], [INNER])
+            if pair is None or not (pair.op == "agg" and pair.args[0] == "tuple" and len(pair.args[4]) == 2 and pair.args[4][1] is INNER):
+                continue
+            pred = _apply_closure(F, an, x.args[2][1], [T.refval(pair)])
+            found = (x, norm(fm.args[2][0]), norm(body.args[2][0]), norm(pair.args[4][0]), norm(pred) if pred is not None else None)
+        if found:
+            break
+    if not found:
+        return None
+    x, outer, inner_src, p0, pred = found
+    NS = norm(T.payload(x, "Some"))
+
+    def re_(n):
+        """a field expression of the found pair, rewritten over the virtual outer item and inner record"""
+        if n == ("fld", NS, 0):
+            return p0
+        if n == ("fld", NS, 1):
+            return ("INNER",)
+        if isinstance(n, tuple):
+            return tuple(re_(y) for y in n)
+        return n
+    msgs = []
+    if outer != F_(("payload", F_(me, "verneeds"), "Some"), 0):
+        msgs.append("the outer search runs over %s, expected the VerNeed iterator of the table" % show(outer)[:120])
+    if inner_src != ("fld", ("ITEM",), 1):
+        msgs.append("the inner search runs over %s, expected the aux iterator yielded together with the VerNeed" % show(inner_src)[:120])
+    want_p = ("Eq",) + tuple(sorted((F_(("INNER",), "vna_other"), idx), key=repr))
+    if pred != want_p:
+        msgs.append("the search predicate is %s, expected vna_other == (versym & 0x7fff)" % (show(pred)[:160] if pred else None))
+    def idx_of(t):
+        if t and t[0] == "payload" and t[1][0] == "call" and t[1][1] == "string_table::StringTable::get" and t[1][2][0] == strs and t[2] == "Ok":
+            return re_(t[1][2][1])
+        return None
+    if idx_of(f.get("file")) != F_(F_(("ITEM",), 0), "vn_file"):
+        msgs.append("file is %s, expected verneed_strs.get(vn.vn_file) of the VerNeed whose aux record matched" % show(f.get("file"))[:160])
+    if idx_of(f.get("name")) != F_(("INNER",), "vna_name"):
+        msgs.append("name is %s, expected verneed_strs.get(vna.vna_name) of the matching aux record" % show(f.get("name"))[:160])
+    if re_(f.get("hash")) != F_(("INNER",), "vna_hash"):
+        msgs.append("hash is %s, not the matching record's vna_hash" % show(f.get("hash"))[:120])
+    if re_(f.get("flags")) != F_(("INNER",), "vna_flags"):
+        msgs.append("flags is %s, not the matching record's vna_flags" % show(f.get("flags"))[:120])
+    return msgs
 
 
 def _guard_eq(an, st, a_norm, b_norm):
